@@ -596,6 +596,84 @@ def part_hook(ctx):
                           dict(kind="hook", storage_type=stype, snapshots=r["snapshots"], statuses=r["statuses"]), signature=None)
             return
 
+# ------------------------------------------------------------------------------- part H: queueing at the lock while time passes
+def part_contended(ctx, et):
+    """Requests that QUEUE at the storage lock of one Application while another request stays inside its critical
+    section, and time passes meanwhile (the lock modules' clock runs 1000 times faster, so every timed wait / sleep /
+    deadline of the lock code expires before the holder leaves: how long a holder stays is a choice of the schedule).
+    Monitors: at every entry any number of readers or exactly one writer; every request answered; the outcome is
+    that of a serial order (decided in Coq)."""
+    rng = ctx.rng
+    w = xc.owner_world(rng)
+    ev = (0, "CEvent", 0)
+    cal = [(1, ("RPropfind", (10,), False)), (2, ("RPropfind", (11,), False)), (1, ("RMkcalendar", (10, 20), ("XNone",)))]
+    pp = lambda k, v: (1, ("RProppatch", (10, 20), ("XProps", ("TRNone",), [(k, v)])))      # noqa: E731
+    holders = [(pp(3, 1), "w"), ((1, ("RPropfind", (10, 20), True)), "r"), ((1, ("RGet", (10, 20))), "r")]
+    waiter_sets = [
+        ("create-create", cal, [PUT(1, (10, 20, 100), ev, inm=True), PUT(1, (10, 20, 100), (0, "CEvent", 1), inm=True)]),
+        ("proppatch-proppatch-get", cal, [pp(1, 1), pp(2, 2), (1, ("RGet", (10, 20)))]),
+        ("three-creates", cal, [PUT(1, (10, 20, 100), (0, "CEvent", k), inm=True) for k in range(2)] + [PUT(1, (10, 20, 100), (0, "CTodo", 0), inm=True)]),
+        ("if-match-race-and-readers", cal + [PUT(1, (10, 20, 100), ev)],
+         [PUT(1, (10, 20, 100), (0, "CEvent", 1), im=("CTag", ("EtItem", ev))), (1, ("RPropfind", (10, 20), True)),
+          PUT(1, (10, 20, 100), (0, "CTodo", 1), im=("CTag", ("EtItem", ev))), (1, ("RMultiget", (10, 20), True, [(10, 20, 100)]))]),
+    ]
+    plan = []
+    for k, (name, setup, ws) in enumerate(waiter_sets):
+        for j, (h, pm) in enumerate(holders):
+            if ctx.tier == "quick" and j == 2 and k % 2:
+                continue
+            for stype in ("multifilesystem_nolock", "multifilesystem"):
+                plan.append((name, setup, h, pm, ws, stype))
+    for k in range(ctx.n(6, 60)):
+        h = xc.gen_request(rng, 1, False, reads=0.5)
+        pm = "r" if h[1][0] in ("RPropfind", "RGet", "RMultiget") or rng.random() < 0.25 else "w"
+        ws = [xc.gen_request(rng, 1, False, reads=0.25) for _ in range(rng.choice([2, 2, 3, 3, 4]))]
+        plan.append(("gen", xc.gen_setup(rng, 2), h, pm, ws, "multifilesystem_nolock" if k % 3 else "multifilesystem"))
+    runs, cases = [], []
+    reported = False
+    for name, setup, h, pm, ws, stype in plan:
+        r = xc.run_contended_lock(w, [], setup, h, pm, ws, et, stype)
+        ctx.case(("contended", name, repr(h), pm, repr(ws), stype), nontrivial=bool(r["parked"] and r["queued"]))
+        ctx.count("contended:%s" % stype)
+        ctx.count("contended:holder-%s" % pm)
+        ctx.count("contended:queued-requests", r["queued"])
+        ctx.count("contended:timed-waits-expired", r["expired"])
+        rp = dict(kind="contended", name=name, world=x_hcheck.world_json(w), setup=setup, holder=h, park_mode=pm, waiters=ws,
+                  storage_type=stype, lock_events=[(i, what, {str(j): m for j, m in o.items()}) for i, what, o in r["events"]][:80],
+                  timed_waits_expired=r["expired"], responses=[repr(c) for c in r["resps"]], store=repr(r["store"]),
+                  note="thread 0 = the holder, parked inside its first %r section while the others queue; the clock of the lock "
+                       "modules runs 1000 times faster than the real one" % pm)
+        if r["overlaps"] and not reported:
+            reported = True
+            i, m, others = r["overlaps"][0]
+            ctx.violation("the storage lock (%s) let request %d enter a %r section while %s -- after it had queued behind a request that "
+                          "stayed inside its %r section (%d timed wait(s) of the lock code expired meanwhile); responses %s" % (
+                              stype, i, m, ", ".join("request %d was inside a %r section" % jm for jm in sorted(others.items())), pm,
+                              r["expired"], rp["responses"]), rp, signature=None)
+        if r["hung"] and not reported:
+            reported = True
+            ctx.violation("request(s) %r never answered after queueing at the storage lock (%s) behind a request that stayed inside its "
+                          "%r section" % (r["hung"], stype, pm), rp, signature=None)
+        if any(r["errors"]) or any(c is None for c in r["resps"]):
+            if not r["hung"]:
+                ctx.obligation("contended-scenario-ran", False, repr((name, stype, r["errors"]))[:500])
+            continue
+        runs.append((rp, r))
+        cases.append(((w, [], setup, [h] + ws, []), (r["store"], r["setup"], r["resps"])))
+    ctx.obligation("contended-scenario-queued", any(r["parked"] and r["queued"] >= 2 for _, r in runs),
+                   "no run had two requests queueing at the lock behind a parked holder")
+    nonser = ctx.diff_cases("contended_ser", xc.COQ_HEADER, "(fun c => c)", cases, xc.enc_sched_case, xc.enc_sched_out, "ser_case", shard=40)
+    if nonser is None:
+        return
+    ctx.extra["contended"] = dict(run=len(runs), queued=sum(r["queued"] for _, r in runs), not_serialisable=len(nonser))
+    ctx.obligation("correspondence:contended-serialisable", not nonser,
+                   "" if not nonser else "%d of %d outcomes of requests that queued at the lock are those of no serial order" % (len(nonser), len(runs)))
+    for i in nonser[:1]:
+        rp, r = runs[i]
+        ctx.violation("requests that queued at the storage lock (%s) behind a slow request: outcome of no one-at-a-time execution "
+                      "(%s: %s; store %s)" % (rp["storage_type"], rp["name"], rp["responses"], rp["store"][:300]), rp, signature=None)
+
+
 # ------------------------------------------------------------------------------- entry points
 def run(ctx):
     ctx.rule = ("(a) schedules: a pair / triple of abstract requests (PUT item / whole collection, DELETE, MOVE, MKCALENDAR, PROPPATCH, GET, "
@@ -603,7 +681,9 @@ def run(ctx):
                 "collections) x one placement of their critical sections (all 20 placements for the corpus and every third pair); "
                 "distinct by (requests, set-up, configuration, observed lock-event sequence), non-trivial = both threads took the lock; "
                 "(b) stress: one recorded concurrent history per run (2-16 threads or 2-4 processes, <= 16 operations), distinct by "
-                "(thread layout, requests, seed), non-trivial = at least one pair of operations overlapped in real time")
+                "(thread layout, requests, seed), non-trivial = at least one pair of operations overlapped in real time; "
+                "(c) queueing: one request parked inside its r / w section x 2-4 requests queueing at the storage lock meanwhile x storage "
+                "type, the lock code's clock running 1000 times faster (timed waits expire), non-trivial = somebody queued")
     ctx.assumptions += [
         "the lock admits either any number of readers or exactly one writer (C11) -- taken as the definition of an admitted schedule",
         "every storage access of a handler lies inside its critical sections in a sufficient mode (C10, regenerated skeleton)",
@@ -630,6 +710,8 @@ def run(ctx):
         ctx.log("thread stress done")
         part_readers(ctx)
         ctx.log("concurrent readers done")
+        part_contended(ctx, et)
+        ctx.log("queueing at the lock done")
         tempfile.tempdir = old_tmp       # several processes / instances, one folder: on the real disk file system (flock)
         part_procs(ctx, et)
         ctx.log("process stress done")
@@ -642,7 +724,7 @@ def run(ctx):
     finally:
         tempfile.tempdir = old_tmp
     ctx.trusted += ["vlib/x_c09.py: the scripted scheduler (wrapper around storage.acquire_lock), the interval recorder, the "
-                    "audit-hook sleeps; canonicalisation of responses and of the storage folder (vlib/x_handlers.py)"]
+                    "audit-hook sleeps, the fast clock given to the lock modules (scaled time-outs / sleeps); canonicalisation of responses and of the storage folder (vlib/x_handlers.py)"]
 
 
 def replay(ctx, path):
@@ -687,6 +769,17 @@ def replay(ctx, path):
         r = xc.run_served_pair(world, [], setup, a, b, et, rp["storage_type"])
         print("responses:", r["resps"], "\nfinal store:", r["store"], "\nB completed while A was parked inside its exclusive section:", r["b_done_while_a_parked"])
         return 1 if r["b_done_while_a_parked"] else 0
+    if rp.get("kind") == "contended":
+        setup = x_hcheck.detuple_hist(rp["setup"])
+        reqs = x_hcheck.detuple_hist([rp["holder"]] + rp["waiters"])
+        r = xc.run_contended_lock(world, [], setup, reqs[0], rp["park_mode"], reqs[1:], et, rp["storage_type"])
+        print("lock events (request, what, who was inside):")
+        for e in r["events"]:
+            print("  ", e)
+        print("timed waits of the lock code that expired:", r["expired"])
+        print("responses:", r["resps"], "\nfinal store:", r["store"])
+        print("entries that break 'readers xor one writer':", r["overlaps"], " never answered:", r["hung"])
+        return 1 if (r["overlaps"] or r["hung"]) else 0
     if rp.get("kind") == "cold-readers":
         bad = xc.run_cold_item_readers(rp["storage_type"], rp["variant"], rp["request"], rounds=rp["rounds"])
         print("answers that differ from the answer of the same request alone:", len(bad))
